@@ -76,5 +76,8 @@ def run(ctx):
                 "`false` edge of a dominating blocked.contains test: two swaps never restructure a common level.")
     na = esort.check_acquire_guard(ctx, F)
     ctx.floor("E-PERM.acquire", "position acquisitions in the worker loop", na, 2)
+    ctx.explain("E-PERM.leveldown: level_down(u) swaps (u, u + 1) with matching stale numbers and rewrites the level numbers of "
+                "both levels afterwards.")
+    esort.check_level_down(ctx, F)
     ctx.not_decided = ("that functions are preserved, that the requested order is reached with minimal swaps, "
                        "non-overlap of concurrent swaps (runtime indices)")
